@@ -136,9 +136,14 @@ class PoyntingFluxDetector(Detector):
         )
         if can_determine_axis:
             if self.keep_all_components:
+                # The per-axis face areas have size one along their own normal axis, so their
+                # shapes differ; broadcast them to the detector region before stacking.
                 weights = jnp.stack(
                     [
-                        _resolve_face_area_weights(self._config, self.grid_slice_tuple, axis, self.dtype)
+                        jnp.broadcast_to(
+                            _resolve_face_area_weights(self._config, self.grid_slice_tuple, axis, self.dtype),
+                            self.grid_shape,
+                        )
                         for axis in range(3)
                     ]
                 )
@@ -351,7 +356,13 @@ class PhasorPoyntingFluxDetector(PhasorDetector):
         real_dtype = jnp.float64 if self.dtype == jnp.complex128 else jnp.float32
         if self.keep_all_components:
             weights = jnp.stack(
-                [_resolve_face_area_weights(self._config, self.grid_slice_tuple, axis, real_dtype) for axis in range(3)]
+                [
+                    jnp.broadcast_to(
+                        _resolve_face_area_weights(self._config, self.grid_slice_tuple, axis, real_dtype),
+                        self.grid_shape,
+                    )
+                    for axis in range(3)
+                ]
             )
         else:
             weights = _resolve_face_area_weights(self._config, self.grid_slice_tuple, self.propagation_axis, real_dtype)
@@ -484,7 +495,9 @@ class ClosedSurfacePhasorPoyntingFluxDetector(PhasorDetector):
     ) -> DetectorState:
         del inv_permeability, inv_permittivity
         time_passed = time_step * self._config.time_step_duration
-        static_scale = self._static_scale()
+        # Same per-sample weighting as PhasorDetector.update: the static scale already divides by the
+        # window sum, so every sample has to carry its apodization weight.
+        static_scale = self._static_scale() * self._window_at_time_step_arr[time_step]
 
         EH = jnp.stack([E[0], E[1], E[2], H[0], H[1], H[2]], axis=0)  # (6, nx, ny, nz)
         phase_angles = self._angular_frequencies * time_passed  # (num_freqs,)
